@@ -759,6 +759,9 @@ pub fn run(report: &Report) {
     long_codewords(report);
     wrapper_apis::<u8>(report, if q { 11 } else { 15 });
     wrapper_apis::<u32>(report, if q { 9 } else { 13 });
+    super::pyfront::sweep(report, "symbol", if q { 3 } else { 4 },
+        "Python StackCoder / QueueEncoder / QueueDecoder with every Huffman book of the sweep: every message up to 3 symbols comes back reversed from the exported and re-imported stack and in order from both queue decoders; bit rate == sum of codeword lengths; symbols outside the alphabet are refused without changing the coder",
+        &[], &["Huffman"]);
 }
 
 /// The bit-coder part of C08 (inspection never changes the output): same BFS / enumeration,
